@@ -342,7 +342,15 @@ fn main() {
                                 || (matches!(sels.get(i), Some(Sel::Agg("SUM", _)) | Some(Sel::Bin("SUM", _, _, _)))
                                     && matches!((c, w), (SqlValue::Double(f), SqlValue::Integer(n)) if n.unsigned_abs() > (1u64 << 53) && *f == *n as f64))
                         });
-                        if only_rounded_sums { "integer-sum-above-2^53-rounded-to-double" } else { "result-differs" }
+                        // the other recorded defect: the columnar filter compares values of different numeric
+                        // types with a tolerance of 1e-9 (pinned by the TPC-H Q6 tests), the row path exactly.
+                        // Recognised only when a predicate literal sits 2^-40 below an off-grid value of its column.
+                        let grid = |v: &V| match v { V::Int(i) => Some(*i * 4), V::Q(k2, _) => Some(*k2), _ => None };
+                        let tolerance_hit = took_columnar && preds.iter().any(|p| {
+                            let (c, lits): (usize, Vec<&V>) = match p { Pred::Cmp(c, _, l, _) => (*c, vec![l]), Pred::Between(c, lo, hi) => (*c, vec![lo, hi]) };
+                            tys[c] == Ty::Dbl && lits.iter().any(|l| grid(l).map(|g| rows.iter().any(|row| matches!(&row[c], V::Tiny(k2) if *k2 == g))).unwrap_or(false))
+                        });
+                        if only_rounded_sums { "integer-sum-above-2^53-rounded-to-double" } else if tolerance_hit { "columnar-comparison-tolerance-1e-9" } else { "result-differs" }
                     }
                 };
                 if class != "different-errors" {
